@@ -52,6 +52,8 @@ MUTATIONS = {
         ('richerror', 'tonic-types/src/richer_error/std_messages/debug_info.rs', r'stack_entries: debug_info\.stack_entries,', 'stack_entries: Vec::new(),', 'stack entries lost'),
     ],
     'C14': [
+        ('errmap', 'tonic/src/transport/error.rs', r'self\.inner\.source = Some\(source\.into\(\)\);', 'let _dropped: Source = source.into();', 'the transport error drops its cause: a ConnectError inside it can no longer be found'),
+        ('errmap', 'tonic/src/transport/error.rs', r'Error::new\(Kind::Transport\)\.with\(source\)', 'Error::new(Kind::Transport)', 'from_source forgets the error it wraps'),
         ('reconnect', 'tonic/src/transport/channel/mod.rs', r'let svc = Connection::connect\(connector, endpoint\)\s*\.await\s*\.map_err\(super::Error::from_source\)\?;', 'let svc = Connection::lazy(connector, endpoint);', 'Channel::connect does not connect: an initial failure is parked instead of reported'),
         ('reconnect', 'tonic/src/transport/channel/mod.rs', r'let svc = Connection::lazy\(connector, endpoint\);\n        let \(svc, worker\) = Buffer::pair\(svc, buffer_size\);', 'let svc = Connection::new(connector, endpoint, false);\n        let (svc, worker) = Buffer::pair(svc, buffer_size);', 'Channel::new builds an eager service that was never driven to readiness'),
         ('reconnect', 'tonic/src/transport/channel/service/connection.rs', r'Self::new\(connector, endpoint, false\)\.ready_oneshot\(\)\.await', 'Self::new(connector, endpoint, true).ready_oneshot().await', 'Channel::connect builds a lazy channel (an initial failure is parked instead of reported)'),
